@@ -213,6 +213,15 @@ class BoundMethod:
     def __repr__(self):
         return f"<bound {self.qualname}>"
 
+    # the two attributes of a real bound method, so that a contract clause reads the same in both modes
+    @property
+    def __func__(self):
+        return self.func
+
+    @property
+    def __self__(self):
+        return self.self
+
     def __call__(self, *a, **k):  # only so that functools.partial accepts it; the engine dispatches calls
         raise TypeError("engine-level bound method called natively")
 
